@@ -839,8 +839,17 @@ public:
 	{
 		item<T> *it;
 		long pos = this->length();
+		/* name may be inline data of existing element */
+		const char *base = reinterpret_cast<const char *>(this->begin());
+		long off = -1;
+		if (id && base && id >= base && id < (base + pos * sizeof(*it))) {
+			off = id - base;
+		}
 		if (!(it = this->insert(pos))) {
 			return 0;
+		}
+		if (off >= 0) {
+			id = reinterpret_cast<const char *>(this->begin()) + off;
 		}
 		if (!id || it->identifier::set_name(id, len)) {
 			it->set_instance(t);
